@@ -11,7 +11,7 @@ from .core import (HarnessError, INJECTED, SimBudget, digest_field, digest_log,
                    field_obs, fhex, is_finite_field, ulp, unhex)
 from .refmodel import Model
 from .trace import FlushSink, GlobalGuard, Recorder, fingerprint, patched_np
-from .world import IMPLICIT, World, deep_field_copy, mon_dict, tnum
+from .world import IMPLICIT, World, deep_field_copy, integrator_class, mon_dict, tnum
 
 MIN_GAP_ULPS = 64
 # documented default of the library (read, not assumed, so that changing it is no alarm)
@@ -527,6 +527,18 @@ class Executor:
             except Exception as e:  # noqa
                 raise HarnessError("reference model side step failed: %r" % (e,))
             if digest_field(ref) != sn[0]:
+                # a side step may also be taken by a brand-new integrator (no memory: gear then
+                # starts with its Crank-Nicolson step): equally "a forward step from the trajectory"
+                if traj.has_memory:
+                    try:
+                        q2 = deep_field_copy(traj.states[off + kk])
+                        q2.model = traj.disc.model
+                        with np.errstate(all="ignore"):
+                            integrator_class(traj.clsname)(self.world.mesh, traj.disc).step(q2, x.dt)
+                        if digest_field(q2) == sn[0]:
+                            continue
+                    except Exception:  # noqa
+                        pass
                 d = max(float(np.max(np.abs(np.nan_to_num(a - b)))) for a, b in zip(sn[4], ref.data))
                 return (k, kk, "value", d, sn[1])
         return None
